@@ -79,6 +79,39 @@ def _effect(v: PathView, i: int, s: ast.stmt) -> str | None:
     return None
 
 
+class _Alpha(ast.NodeTransformer):
+    """Bound variables of comprehensions are renamed by position (the name chosen for a loop variable is not behaviour)."""
+
+    def __init__(self):
+        self.n = 0
+
+    def _comp(self, node):
+        m = {}
+        for g in node.generators:
+            for t in ast.walk(g.target):
+                if isinstance(t, ast.Name) and t.id not in m:
+                    m[t.id] = f"_c{self.n}"
+                    self.n += 1
+
+        class R(ast.NodeTransformer):
+            def visit_Name(self, n):
+                return ast.copy_location(ast.Name(id=m.get(n.id, n.id), ctx=n.ctx), n)
+        node = R().visit(node)
+        return self.generic_visit(node)
+
+    visit_ListComp = visit_SetComp = visit_GeneratorExp = visit_DictComp = _comp
+
+
+def alpha(text):
+    if not text or " for " not in text:
+        return text
+    try:
+        e = ast.parse(text, mode="eval").body
+    except SyntaxError:
+        return text
+    return ast.unparse(ast.fix_missing_locations(_Alpha().visit(e)))
+
+
 def block_table(stmts: list[ast.stmt], outs: tuple[str, ...] = (), rename: dict | None = None, depth: int = 6, effects: bool = True) -> list[tuple]:
     stmts = strip([renamed(s, rename) for s in stmts])
     # outputs start as their incoming value (lets `x = f(x)` fold into the final definition)
@@ -102,7 +135,7 @@ def block_table(stmts: list[ast.stmt], outs: tuple[str, ...] = (), rename: dict 
         finals = tuple((o, v.canon_text(ast.Name(id=o, ctx=ast.Load()), n)) for o in outs)
         eff = tuple(e for i, st in enumerate(v.steps) if st.kind == "stmt" for e in [_effect(v, i, st.node)] if e) if effects else ()
         iters = tuple((st.extra, v.canon_text(st.node.iter, i)) for i, st in enumerate(v.steps) if st.kind == "iter")
-        rows.append((prem, (pth.exit, val, finals, eff, iters)))
+        rows.append((prem, (pth.exit, alpha(val), tuple((k_, alpha(t_)) for k_, t_ in finals), tuple(alpha(e_) for e_ in eff), iters)))
     return rows
 
 
